@@ -35,7 +35,7 @@ class Contract:
                  setup=None, props=(), name=None, raises_only_if=False, notes="", assumes=(), result_kind=None,
                  frame=None, extra_names=None, timeout=10000, path_ensures=None, stubs=None, tier="quick",
                  case=None, native_seams=None, ghost_frame=None, block=None, outputs=None,
-                 exc_ensures=None, native_ensures=None):
+                 exc_ensures=None, native_ensures=None, aliases=None):
         self.target = target
         self.params = params
         self.requires = list(requires)
@@ -60,6 +60,8 @@ class Contract:
         self.native_ensures = list(native_ensures or [])
         self.exc_ensures = list(exc_ensures or [])   # (name, expr) over the state at an exceptional exit
         self.outputs = dict(outputs or {})   # block contracts: locals the block may define (arbitrary value where it did not)
+        # spec name -> selector(func ast) -> the function's own name of that local: the specification then survives a renamed local
+        self.aliases = dict(aliases or {})
         self.block = block               # (name, selector(func ast) -> statements): verify an extracted statement block
         self.ghost_frame = list(ghost_frame or [])     # ghost variables a call may change (havoced at call sites)
         self.native_seams = list(native_seams or [])   # seams scripted by the native replay / search harness
@@ -432,6 +434,43 @@ def make_engine(index, schema_mod, contract=None):
     return eng
 
 
+def _resolve_aliases(contract, fs):
+    """Rewrite the names of function locals used by the specification to the names the current source gives them."""
+    if not contract.aliases:
+        return contract
+    import copy
+    mapping = {}
+    for alias, selector in contract.aliases.items():
+        actual = selector(fs.node)
+        if not actual:
+            raise Untranslatable(f"the local the specification calls '{alias}' was not found in {fs.qualname}")
+        mapping[alias] = actual
+    if all(k == v for k, v in mapping.items()):
+        return contract
+
+    def rn(src):
+        if not isinstance(src, str):
+            return src
+        tree = ast.parse(src.strip(), mode="eval")
+        for n in ast.walk(tree):
+            if isinstance(n, ast.Name) and n.id in mapping:
+                n.id = mapping[n.id]
+        return ast.unparse(tree)
+    c2 = copy.copy(contract)
+    c2.requires = [rn(r) for r in contract.requires]
+    c2.ensures = [(n, rn(e)) for n, e in contract.ensures]
+    c2.exc_ensures = [(n, rn(e)) for n, e in contract.exc_ensures]
+    c2.raises = {k: rn(v) for k, v in contract.raises.items()}
+    c2.outputs = {mapping.get(k, k): v for k, v in contract.outputs.items()}
+    c2.loops = {}
+    for ordinal, spec in contract.loops.items():
+        spec2 = dict(spec)
+        spec2["invariants"] = [rn(i) for i in spec.get("invariants", [])]
+        spec2["kinds"] = {mapping.get(k, k): v for k, v in spec.get("kinds", {}).items()}
+        c2.loops[ordinal] = spec2
+    return c2
+
+
 class _MissingSource:
     """Stand-in FuncSrc for a contract whose target (or block) no longer exists in the source tree."""
     def __init__(self, target):
@@ -455,7 +494,7 @@ def verify(contract, index, schema_mod, keep_states=True):
         return res
     res = FunctionResult(contract, fs)
     try:
-        _verify(contract, index, schema_mod, fs, res)
+        _verify(_resolve_aliases(contract, fs), index, schema_mod, fs, res)
     except (Untranslatable, SpecError) as e:
         res.error = f"{type(e).__name__}: {e}"
     except z3.Z3Exception as e:
